@@ -264,6 +264,8 @@ fn attr_decode_check(code: u8) {
     match Attribute::decode(code, flags, &mut cur, len, false) {
         Ok(a) => {
             assert!(a.code() == code && a.flags() == flags, "C05.decode.stored_with_the_code_and_flags_received");
+            // what the attribute walk of parse_message relies on: the next header starts right behind the value
+            assert!(cur.position() == len as u64, "C05.decode.accepted_value_is_consumed_whole");
             let ok = match code {
                 1 => len == 1,
                 4 | 5 | 9 => len == 4,
@@ -309,3 +311,71 @@ attr_decode_harness!(c05_attr_decode_cluster_list, 10);
 attr_decode_harness!(c05_attr_decode_ext_community, 16);
 attr_decode_harness!(c05_attr_decode_as4_aggregator, 18);
 attr_decode_harness!(c05_attr_decode_large_community, 32);
+
+/// well-formed AS_PATH value in the internal (four-octet) form: whole segments only, each with a defined type
+fn as_path_wf(b: &[u8], min_count: u8) -> bool {
+    let mut pos = 0usize;
+    let mut k = 0;
+    while pos < b.len() {
+        if k >= 8 { return false; }           // (bounded walk: at most 7 segments fit into 14 bytes)
+        k += 1;
+        if pos + 2 > b.len() { return false; }
+        let t = b[pos];
+        let n = b[pos + 1];
+        if !(1..=4).contains(&t) || n < min_count { return false; }
+        pos += 2 + n as usize * 4;
+        if pos > b.len() { return false; }
+    }
+    true
+}
+
+/// `Attribute::decode` for AS_PATH / AS4_PATH: accepted only if the value is a sequence of whole segments with defined
+/// types (AS4_PATH: non-empty segments, at least one), stored as received (four-octet mode) or up-converted segment by
+/// segment (two-octet mode); never panics.  BOUNDED: values of 0..=14 bytes.
+fn as_path_decode_check(code: u8, two_byte_as: bool, max_len: u16) {
+    let flags: u8 = kani::any();
+    let len: u16 = kani::any();
+    kani::assume(len <= max_len && max_len <= 14);
+    let data: [u8; 14] = kani::any();
+    let mut cur = std::io::Cursor::new(&data[..len as usize]);
+    match Attribute::decode(code, flags, &mut cur, len, two_byte_as) {
+        Ok(a) => {
+            assert!(a.code() == code && a.flags() == flags, "C05.decode.stored_with_the_code_and_flags_received");
+            assert!(cur.position() == len as u64, "C05.decode.accepted_value_is_consumed_whole");
+            let bin = a.binary();
+            assert!(bin.is_some(), "C05.decode.as_path_is_stored_as_a_byte_string");
+            let bin = bin.unwrap();
+            assert!(as_path_wf(bin, if code == 17 { 1 } else { 0 }), "C05.decode.as_path_is_whole_segments_of_defined_types");
+            if code == 17 {
+                assert!(len >= 6, "C05.decode.as4_path_is_not_empty");
+            }
+            if !two_byte_as || code == 17 {
+                assert!(bin.len() == len as usize, "C05.decode.as_path_stored_as_received");
+            }
+            kani::cover!(true, "some value is accepted");
+            kani::cover!(len > 0, "a non-empty path is accepted");
+        }
+        Err(_) => {
+            kani::cover!(true, "some value is rejected");
+        }
+    }
+    kani::cover!(true, "harness end reachable");
+}
+
+#[kani::proof]
+#[kani::unwind(16)]
+fn c05_attr_decode_as_path() {
+    as_path_decode_check(2, false, 8);
+}
+
+#[kani::proof]
+#[kani::unwind(16)]
+fn c05_attr_decode_as_path_two_octet() {
+    as_path_decode_check(2, true, 8);
+}
+
+#[kani::proof]
+#[kani::unwind(16)]
+fn c05_attr_decode_as4_path() {
+    as_path_decode_check(17, false, 14);
+}
